@@ -92,6 +92,7 @@ type interpreter struct {
 	panicStack         []stackEntry // call stack captured where the current panic was raised
 	cur                *frame       // innermost active frame (sequential mode)
 	sched              *scheduler   // concurrent mode, nil otherwise
+	cut                *cutState    // armed loop cut-point, nil otherwise
 	depth              int
 	bypass             map[string]int
 	initMode           bool
@@ -552,6 +553,9 @@ func executePhis(fr *frame) []ssa.Instruction {
 		}
 		for i, phi := range phis {
 			fr.env[phi.(*ssa.Phi)] = fr.phitemps[i]
+		}
+		if fr.i.cut != nil {
+			fr.i.cutAtPhis(fr, phis)
 		}
 	}
 	return nonPhis
